@@ -104,8 +104,9 @@ prop(
     "C05",
     module="Aquatic.Props.C05",
     technique="Lean 4 proof for an arbitrary keyed hash (window arithmetic, acceptance implies correct MAC) + differential check of the real ConnectionValidator at window boundaries, other addresses, all single-bit and sampled double-bit alterations, forged and previous-run ids",
-    runs=[dict(harness="validator", driver="validator", quick=dict(cases=60), thorough=dict(cases=6000))],
-    nontrivial=["t=expiry-1", "t=expiry", "60s-future", "61s-future", "age=0", "foreign-or-altered-id"],
+    runs=[dict(harness="validator", driver="validator", quick=dict(cases=60), thorough=dict(cases=6000)),
+          dict(harness="udpnet", driver="udpnet", quick=dict(cases=2), thorough=dict(cases=24))],
+    nontrivial=["t=expiry-1", "t=expiry", "60s-future", "61s-future", "age=0", "foreign-or-altered-id", "id-stale", "id-foreign", "id-forged"],
     level_text="Theorems over every issue time, check time, age and address, for an arbitrary MAC function: an issued id is accepted from its address iff now < t + age and t <= now + 60; acceptance of any id from any address implies the presented tag equals the MAC of (embedded time, that address) - the precise form of 'rejected up to the 2^-32 guessing chance'; the u64 sums cannot overflow. Tie: the real ConnectionValidator (clock set through hook H4) on boundary triples, all 64 single-bit alterations, other addresses of both families, forged ids and ids of another validator instance.",
     level_note="Trusted: Lean kernel; BLAKE3 keyed hash idealised as an arbitrary function (the driver's oracle knows the MAC only of issued (time, address) pairs: a 2^-32 chance of a spurious alarm per forged id); constant_time_eq; native-endian split of the id modelled as two u32 halves; the socket workers' clock refresh (every 256 polls / 5 s pulse) is not modelled.",
     design_ref="§8 C05",
@@ -130,10 +131,11 @@ prop(
     module="Aquatic.Props.C11",
     extra_modules=["Aquatic.Props.Store"],
     technique="Lean 4 proof (file parsing, parse-then-store reload, gate, clean under the list in force, end-to-end refinement over any interleaving) + differential check of the real update_access_list / create_from_path and of the stores' clean with lists",
-    runs=[dict(harness="acl", driver="acl", quick=dict(cases=500), thorough=dict(cases=50000)),
+    runs=[dict(harness="udpnet", driver="udpnet", quick=dict(cases=2), thorough=dict(cases=24)),
+          dict(harness="acl", driver="acl", quick=dict(cases=500), thorough=dict(cases=50000)),
           dict(harness="udpstore", driver="store", quick=dict(cases=300, maxops=60), thorough=dict(cases=10000, maxops=120)),
           dict(harness="httpstore", driver="store", quick=dict(cases=300, maxops=60), thorough=dict(cases=10000, maxops=120))],
-    nontrivial=["failed-reload-with-nonempty-previous-list", "blank-lines", "file-unreadable", "cln-acl"],
+    nontrivial=["failed-reload-with-nonempty-previous-list", "blank-lines", "file-unreadable", "cln-acl", "reply-error", "acl=allow", "acl=deny"],
     level_text="Theorems: allows(mode, list, hash) for the three modes; a denied announce returns an error and the same state; a reload parses the whole file before storing, so a missing file or a malformed/unreadable line at any position leaves the previous list in force, a good file switches to exactly its hashes (blank lines, surrounding Unicode white space and hex case ignored); cleaning keeps an entry iff it is unexpired and its torrent permitted by the list in force; and for every interleaving of announce / scrape / reload / clean the gated store refines the reference tracker guarded by the latest successfully loaded list. Tie: the real update_access_list on generated files (bad line at every position, invalid UTF-8, CRLF, missing file, directory) observed through the shared list and through a per-worker cache; the real stores' clean with allow/deny lists.",
     level_note="The gate in front of the three trackers' announce paths sits in private socket-worker code; it is exercised by the socket-level runs (C06, C16, C17), here it is modelled. Trusted: arc_swap (a store is seen by the next load), hex::decode_to_slice, BufRead::lines and str::trim contracts (their agreement with the model is sampled).",
     design_ref="§8 C11",
@@ -278,8 +280,8 @@ prop(
     technique="Lean 4 proof (addressing of every message in the refined model: one reply on the requesting connection, forwards to the owner of the addressed peer only, second peer id refused and connection ended, close leaves nothing in sending order; two-channel scheduling model with the overtaking counterexample) + socket-level differential runs against the real tracker process with several WebSocket clients",
     runs=[dict(harness="wsnet", driver="wsstore", quick=dict(cases=6), thorough=dict(cases=60, burst=600))],
     nontrivial=["offers-forwarded", "answer-forwarded", "ignored-foreign-owner", "second-peer-id-closes", "close-with-entries", "wburst", "scrape-nonzero"],
-    level_text="Theorems (on the model refined in C08 / C09, for every reachable state): an announce that is not ignored yields, after the forwarded messages, exactly one announce reply addressed to the sender; a scrape exactly one scrape reply to the requester; every forwarded offer / answer is addressed to the connection owning the addressed stored peer of the same torrent, tagged with the sender's peer id; an announce under a second peer id for a torrent not stopped yields one error reply and ends the connection, whose peers all disappear; after a close processed in sending order no stored peer is owned by the closed connection. Two-channel model (requests / control, each FIFO, swarm worker free to pick): in sending order nothing remains; taking the close notice first leaves the entry (negation witness, finding F11). Tie: tracker child process, socket_workers x swarm_workers in {1,2,3}^2, 3..6 WebSocket clients, announces with offers / answers, scrapes over torrents of different swarm workers, garbage messages, orderly and abrupt closes, bursts of pipelined announces followed by a TCP reset; every message each client receives is compared with model and reference.",
-    level_note="partial for the runtime part: glommio channel meshes and task scheduling, TCP and WebSocket framing are exercised only. Known findings: F11 (a burst of announces can be overtaken by the close notice: peers of a dropped connection remain until they expire), F14 (the error reply for a second peer id is dropped when the reader task ends the connection).",
+    level_text="Theorems (on the model refined in C08 / C09, for every reachable state): an announce that is not ignored yields, after the forwarded messages, exactly one announce reply addressed to the sender; a scrape exactly one scrape reply to the requester; every forwarded offer / answer is addressed to the connection owning the addressed stored peer of the same torrent, tagged with the sender's peer id; an announce under a second peer id for a torrent not stopped yields one error reply and ends the connection, whose peers all disappear; after a close processed in sending order no stored peer is owned by the closed connection. Two-channel model (requests / control, each FIFO, swarm worker free to pick): in sending order nothing remains; taking the close notice first left the entry on the pinned tree (negation witness, finding F11) and is harmless with the swarm worker's memory of closed connections (the repair): an announce of a connection already reported closed is dropped. Tie: tracker child process, socket_workers x swarm_workers in {1,2,3}^2, 3..6 WebSocket clients, announces with offers / answers, scrapes over torrents of different swarm workers, garbage messages, orderly and abrupt closes, bursts of pipelined announces followed by a TCP reset; every message each client receives is compared with model and reference.",
+    level_note="partial for the runtime part: glommio channel meshes and task scheduling, TCP and WebSocket framing are exercised only. F11 (a burst of announces overtaken by the close notice left peers of a dropped connection behind) was found by these runs and repaired; known finding: F14 (the error reply for a second peer id is dropped when the reader task ends the connection).",
     design_ref="§8 C17",
     assumptions=["a message is considered not sent if it has not arrived 150 ms after the last one (3 s at most per operation)"],
 )
